@@ -92,11 +92,6 @@ function with the broken one. UNDECIDED entries are exit 2 with the reason in th
   -- a `format!` in *value* position with a spec N6 does not model is not replaced by an arbitrary string (that would
   over-approximate a value, and a proof failing on the over-approximation says nothing): the function is UNDECIDED for
   Verus, and the Kani harness times out on the formatting code.
-* *resource limit on a proof that cannot succeed*: a changed socket remover (two `remove_insert` calls instead of one, ..) makes
-  the solver search until the budget is used up, also in the retry run with six times the budget; a function that runs out
-  of resources has all its verdicts set to UNDECIDED (11.4 item 7). Which of `C07_2`, `b2_C06_2`, `b3_C06_1` end that way
-  differs from round to round (each was reported in most rounds; in this one `C07_2` is UNDECIDED): the verdict on the
-  unchanged tree does not depend on it (the heaviest function there uses a quarter of the budget).
 * *error kinds of the decoder*: the contract of `decode` fixes Ok/Err and the value, not *which* `alloy_rlp::Error` is
   returned; `b3_C13_2` changes only the error reported for a malformed item followed by more than 300 bytes. A clause that
   names the cause of each error needs the error values of `K::enr_to_public` and of every alloy-rlp call in the
@@ -161,6 +156,11 @@ miss or alarm, or a recurring family; every batch was re-run afterwards):
   143 by the property the author aimed at). The clauses concerned now also carry the label of the property they are the
   reason for (11.1 item 4), and C13's exit 0 on `b3_C13_1` became UNDECIDED (a failed assertion of another property in the same
   function).
+* *resource limit on a proof that cannot succeed*: a changed socket remover (two `remove_insert` calls instead of one, ..) makes
+  the solver search until the budget is used up, also in the retry run with six times the budget, and a function that runs
+  out of resources had all its verdicts set to UNDECIDED; which of `C07_2`, `b2_C06_2`, `b3_C06_1` ended that way differed from
+  round to round. Now an obligation that fails in BOTH runs (whole crate / function alone with the larger budget) is reported
+  even though the function also ran out of resources (11.4 item 7); all three are reported.
 * the campaign itself runs six checks at a time: pruning of the result cache deleted an entry another run was about to read
   (one run ended with exit 2 "internal error of the checker") -> entries younger than two hours are never pruned.
 
